@@ -264,7 +264,8 @@ for _pid, (_t, _x) in ROUND5.items():
 
 ROUND6 = {
  "C06": ("; effect analysis of every loop and iterator chain over a randomly seeded HashMap/HashSet", "Round 6: no output and no choice depends on the iteration order of a randomly seeded hash container (R6.12, whole program)."),
- "C08": ("", "Round 6: the candidate record layouts are walked in an order that does not change from run to run (R8.17 lift of C06 R6.12)."),
+ "C08": ("", "Round 6: the candidate record layouts are walked in an order that does not change from run to run (R8.17 lift of C06 R6.12); layout arms of different OS families name the ut_type through different tables (R8.18)."),
+ "C05": ("", "Round 6: a buffered writer over the unpacked temporary file is flushed, and the result looked at, before success is reported (R5.15; lifted by C09 R9.6 and C10 R10.6)."),
 }
 for _pid, (_t, _x) in ROUND6.items():
     if _pid in CLAIMS:
